@@ -381,6 +381,14 @@ class Evaluator:
             if a[5] or b[5]:
                 return {r, "="}
             return {r}
+        if a[0] == "agg" and b[0] == "agg" and a[1] == b[1]:
+            # float sums of the two objective vectors: their relation is a parameter of the run
+            if a[2] == b[2]:
+                return {"="}
+            r = env.get(("aggrel", a[1]))
+            if r is None:
+                return None
+            return {r if a[2] == "p" else _FLIPREL[r]}
         if a[0] == "diff" and b[0] == "fin" and b[1] == 0:
             sigma = env.get(("sigma", a[1]))
             if sigma is None:
@@ -720,6 +728,7 @@ class Interp:
                     else:
                         yield e2, r2, t2, w2, oc
         for e0, r0, t0, w0 in exits:
+            w0 = w0 + ("$",)          # the abstract sequence was consumed to its end
             if node.orelse:
                 yield from self.block(node.orelse, dict(e0), r0, t0, w0)
             else:
